@@ -27,18 +27,31 @@ func c06URL(s string) *url.URL {
 	return u
 }
 
-func c06Chain(which int) (certurl.CertChain, interface{}) {
+func c06Chain(which int) (certurl.CertChain, interface{}) { return c06ChainN(which, 1) }
+
+// c06ChainN: leaf certificate `which` followed by n-1 further certificates (certificates 5, 6: "intermediates";
+// the package does not validate the chain, it only has to keep the leaf at the position the subset points to).
+func c06ChainN(which int, n int) (certurl.CertChain, interface{}) {
 	der, priv := vhc.TestKeyPair(which)
 	cert, err := x509.ParseCertificate(der)
 	vh.Assume(err == nil)
-	chain, err := certurl.NewCertChain([]*x509.Certificate{cert}, []byte{1}, nil)
+	certs := []*x509.Certificate{cert}
+	for i := 1; i < n; i++ {
+		ider, _ := vhc.TestKeyPair(4 + i)
+		ic, err := x509.ParseCertificate(ider)
+		vh.Assume(err == nil)
+		certs = append(certs, ic)
+	}
+	chain, err := certurl.NewCertChain(certs, []byte{1}, nil)
 	vh.Assume(err == nil)
 	return chain, priv
 }
 
 // c06Sign mirrors cmd/sign-bundle: every exchange the certificate covers gets payload integrity and is added.
-func c06Sign(b *bundle.Bundle, which int) {
-	chain, priv := c06Chain(which)
+func c06Sign(b *bundle.Bundle, which int) { c06SignN(b, which, 1) }
+
+func c06SignN(b *bundle.Bundle, which int, chainLen int) {
+	chain, priv := c06ChainN(which, chainLen)
 	signer, err := NewSigner(b.Version, chain, priv, c06URL("https://example.org/validity"), time.Unix(c06Date, 0), c06Duration)
 	vh.Assert(err == nil, "NewSigner accepts a valid chain")
 	if err != nil {
@@ -64,7 +77,7 @@ func c06Sign(b *bundle.Bundle, which int) {
 
 // VH_C06_TamperAfterSigning: a b1/b2 bundle with one exchange the certificate covers (https://example.org/a,
 // symbolic 0..3 byte body, symbolic header value) and one it does not (https://other.test/b) is signed by 1 or 2
-// signers appended one after another (real Signer code; ECDSA idealised, SHA-256 collision-free), written and read
+// signers appended one after another, with certificate chains of 1..2 (thorough 1..3) certificates (real Signer code; ECDSA idealised, SHA-256 collision-free), written and read
 // back through the real bundle format; then ONE thing is altered by a symbolic amount - covered body byte (any
 // position, any XOR mask), status, header value, added header, a byte of the signed subset, of the signature, the
 // authority index (any other 64-bit value), the two authorities swapped, or the authority replaced by another certificate for the same key - and verified at
@@ -83,10 +96,20 @@ func VH_C06_TamperAfterSigning() {
 	e2 := &bundle.Exchange{bundle.Request{URL: c06URL("https://other.test/b")}, bundle.Response{Status: 200, Header: http.Header{"Content-Type": []string{"text/plain"}}, Body: []byte("zz")}}
 	b := &bundle.Bundle{Version: ver, PrimaryURL: c06URL("https://example.org/a"), Exchanges: []*bundle.Exchange{e1, e2}}
 	nsigners := 1 + vh.Choose(2)
+	// certificate chains of 1..3 certificates: the first signer's chain has 1..2 (thorough 1..3) certificates, the
+	// second signer's 1 (thorough 1..2) - the authority index of a later subset must skip earlier chains
+	nauth := 0
 	for i := 0; i < nsigners; i++ {
-		c06Sign(b, i)
+		cl := 1
+		if i == 0 {
+			cl = 1 + vh.Choose(2+vh.Tier())
+		} else if vh.Tier() == 1 {
+			cl = 1 + vh.Choose(2)
+		}
+		c06SignN(b, i, cl)
+		nauth += cl
 	}
-	vh.Assert(len(b.Signatures.VouchedSubsets) == nsigners && len(b.Signatures.Authorities) == nsigners, "one vouched subset and one authority per signer")
+	vh.Assert(len(b.Signatures.VouchedSubsets) == nsigners && len(b.Signatures.Authorities) == nauth, "one vouched subset per signer, one authority per certificate")
 	for i, vs := range b.Signatures.VouchedSubsets {
 		chain, _ := c06Chain(i)
 		vh.Assert(vs.Authority < uint64(len(b.Signatures.Authorities)) && bytes.Equal(b.Signatures.Authorities[vs.Authority].Cert.Raw, chain[0].Cert.Raw), "each vouched subset points at its own signer's leaf certificate")
@@ -153,8 +176,10 @@ func VH_C06_TamperAfterSigning() {
 		sigAltered = true
 	case 8:
 		vh.Assume(nsigners == 2)
+		// the two signers' leaf certificates swapped
 		au := rb.Signatures.Authorities
-		au[0], au[1] = au[1], au[0]
+		l0, l1 := rb.Signatures.VouchedSubsets[0].Authority, rb.Signatures.VouchedSubsets[1].Authority
+		au[l0], au[l1] = au[l1], au[l0]
 		sigAltered = true
 	}
 	expires := c06Date + 3600
